@@ -526,6 +526,11 @@ def check_train_group(ctx, exe, ds, F, bias, C, eps, kern, cfgs, disp=None):
                 dd = sorted(a - b for a, b in zip(allA[c::outputs], allB[c::outputs]))
                 shift[c] = dd[len(dd) // 2]
                 if abs(shift[c]) > 1e-6: ctx.count("binary_offset_shift_removed")
+        # equality-constrained binary machines: the offset shift is only ESTIMATED: median_j(delta f_j) = delta b + median_j(<delta w, x_j>),
+        # so it is off by at most |delta w| * max_j sqrt(k(x_j,x_j)); that term is added to the tolerance of every point
+        # (without it a point at the origin of a linear kernel, k(x,x) = 0, is compared with a tolerance of eps only)
+        kref = max([kxx(ds, ds["probes"], j, kern) for j in range(ds["m"])] + [kxx(ds, ds["xs"], j, kern) for j in range(n)] + [0.0])
+        shift_slack = 2 * math.sqrt(2 * gap) * math.sqrt(max(kref, 0.0))
         for name, pts, cnt in (("dec", ds["probes"], ds["m"]), ("tdec", ds["xs"], n)):
             va, vb = b0[name], [x + shift[t % outputs] for t, x in enumerate(rr[name])]
             if F in CENTRED and k > 2 and outputs > 1:
@@ -533,7 +538,7 @@ def check_train_group(ctx, exe, ds, F, bias, C, eps, kern, cfgs, disp=None):
             for j in range(cnt):
                 tol = train_tolerance(ds, pts, j, kern, gap, epsf, bias)
                 if bias and (outputs == 1 or F == "OVA"):
-                    tol *= 2      # equality-constrained binary machines: the offset shift is only estimated (median), see above
+                    tol = 2 * tol + shift_slack
                 for c in range(outputs):
                     dev = abs(va[j * outputs + c] - vb[j * outputs + c])
                     worst = max(worst, dev / tol)
